@@ -450,3 +450,8 @@ def adapter_fallback_total(cl, mod, cls, func):
 
 
 R.fclause("C20", "llm-adapter/fallback-block-cannot-raise", "custom", RT, fn=adapter_fallback_total)
+
+# ---------------------------------------------------------------- C04: the kill switch in the parallel agent driver's commit phase
+R.fclause("C04", "killswitch/batch-driver-gate:apply_changes", "gate",
+          "clematis/engine/orchestrator/parallel.py:_run_agents_parallel_batch",
+          sites={"call": "apply_changes"}, gate="t4_enabled")
